@@ -168,6 +168,16 @@ CHECKS = {
               'enumerated exhaustively.'),
         design_ref='DESIGN.md section 5 C18',
         note='Trusted: the list model (operations are the documented list / set ones).'),
+    'C14': dict(
+        category='exploration',
+        technique='Hypothesis pairs / triples of lexical items (near-duplicates, cross-type) with construction histories, fresh process per cache size; algebraic laws against an independent structural key',
+        text=('Items of all nine lexical types and arguments are generated in pairs and triples biased to differ in one '
+              'coordinate; equality, hashing, ordering (trichotomy, rank-first, antisymmetry, transitivity, sort stability), '
+              'rebuilding from ident / spec, copy, deepcopy, pickle and immutability are checked against a structural key read '
+              'from public attributes, before and after enough other constructions to evict the bounded cache, in separate '
+              'processes with ITEM_CACHE_SIZE 1, 2, 7 and 1000. Writes to enum members are probed in a throw-away process.'),
+        design_ref='DESIGN.md section 5 C14',
+        note='Trusted: the structural walk. ITEM_CACHE_SIZE=0 is not a supported configuration (construction fails outright).'),
 }
 
 NOT_YET = 'check not built yet in this session (planned, see DESIGN.md section 5); no claim is made'
